@@ -33,7 +33,7 @@ KC, KE = 0x123456, 0x654321
 
 def bound(tier):
     return ("4 directives x lists of length 1..3 over 19 value kinds (17+289+4913 lists each); 259 .ascii strings; .incbin: 9 lengths "
-            "x 2 placements x 2 file names x 2 buses, each file also rewritten with new content of the same length and re-assembled; lists of 4..300 values x 4 directives; each directive inside 9 kinds of container x 6 value kinds; 14 edge-case .ascii texts x 4 placements; every value of " + ("-0x20000..0x1FFFF, +-(0xFF0000..0x100FFFF) and 0xFFFF0000..0x10000FFFF" if tier == "thorough" else "-0x300..0x2FF and 0x200-wide windows around +-2^16, 2^24, 2^32") + " x 4 directives" + ("; plus every file length 0..300 at the bank end" if tier == "thorough" else ""))
+            "x 2 placements x 2 file names x 2 buses, .incbin from sources named with a directory part and inside loop / block / macro bodies, each file also rewritten with new content of the same length and re-assembled; lists of 4..300 values x 4 directives; each directive inside 9 kinds of container x 6 value kinds; 14 edge-case .ascii texts x 4 placements; every value of " + ("-0x20000..0x1FFFF, +-(0xFF0000..0x100FFFF) and 0xFFFF0000..0x10000FFFF" if tier == "thorough" else "-0x300..0x2FF and 0x200-wide windows around +-2^16, 2^24, 2^32") + " x 4 directives" + ("; plus every file length 0..300 at the bank end" if tier == "thorough" else ""))
 
 
 def cases(tier, seed):
@@ -51,6 +51,7 @@ def cases(tier, seed):
         for place in ("start", "near-end"):
             for fname in ("d.bin", "sub/d.x.bin"):
                 yield ("incbin", busname, place, fname, tier)
+    yield ("incbin-contexts",)
     # value sweeps: EVERY value of a range, 64 values per directive line, positive and negative
     for d in WIDTH:
         for lo, hi in sweep_ranges(tier):
@@ -304,6 +305,57 @@ def run_long_list(d):
     return {"evals": evals, "nt_count": evals, "outcome": "long-lists-ok" if not viol else "LONG-LIST-VIOLATION", "violations": viol[:6]}
 
 
+def run_incbin_contexts():
+    """(a) the main source is named with a directory part and a same-named file sits next to it: relative paths are relative
+    to the working directory, as for every other file; (b) .incbin inside a loop body / block / macro body / named scope:
+    each copy's start symbol and size belong to that expansion."""
+    ref = refbus.lorom()
+    viol = []
+    evals = 0
+    outcomes = set()
+    a_, b_ = bytes([0xA1, 0xA2, 0xA3]), bytes([0xB1, 0xB2, 0xB3, 0xB4, 0xB5])
+    src = f"*=0x{ORG:06x}\n.incbin 'd.bin'\n.dl d_bin, d_bin__size\n"
+    for fname in ("m.s", "src/m.s", "src/sub/m.s", "./src/m.s"):
+        out = impl.assemble(src, rom="low_rom", filename=fname, files={"d.bin": a_, "src/d.bin": b_, "src/sub/d.bin": b_})
+        evals += 1
+        exp = a_ + ORG.to_bytes(3, "little") + (3).to_bytes(3, "little")
+        if not out.accepted or out.blocks != [(ref.phys(ORG), exp)]:
+            viol.append({"key": "incbin:wrong-file-for-a-source-in-a-directory", "msg": f"source named {fname!r}: expected {exp.hex()} got {out.brief()}"})
+            outcomes.add("WRONG-FILE")
+        else:
+            outcomes.add("ok-dir")
+    wraps = {
+        "for": (".for qi := 0, 3 {{\n{body}}}\n", 3), "block": ("{{\n{body}}}\n{{\n{body}}}\n", 2),
+        "macro": (".macro mi() {{\n{body}}}\nmi()\nmi()\n", 2), "for-in-for": (".for qi := 0, 2 {{\n.for qj := 0, 2 {{\n{body}}}\n}}\n", 4),
+        "for-after-plain": (".incbin 'd.bin'\n.for qi := 0, 2 {{\n{body}}}\n.dl d_bin\n", 2),
+    }
+    body = ".incbin 'd.bin'\n.dl d_bin\n.db d_bin__size\n"
+    for wname, (tmpl, copies) in wraps.items():
+        src2 = f"*=0x{ORG:06x}\n" + (tmpl.format(body=body) if wname.startswith("macro") is False else tmpl.format(body=body).replace("*=", "*="))
+        if wname == "macro":
+            src2 = tmpl.format(body=body).replace("mi()\nmi()\n", f"*=0x{ORG:06x}\nmi()\nmi()\n")
+        out = impl.assemble(src2, rom="low_rom", files={"d.bin": a_})
+        evals += 1
+        exp = b""
+        pos = ORG
+        first = None
+        if wname == "for-after-plain":
+            first = pos
+            exp += a_
+            pos += 3
+        for _ in range(copies):
+            exp += a_ + pos.to_bytes(3, "little") + b"\x03"
+            pos += 7
+        if wname == "for-after-plain":
+            exp += first.to_bytes(3, "little")
+        if not out.accepted or out.blocks != [(ref.phys(ORG), exp)]:
+            viol.append({"key": f"incbin:wrong-symbols-in-{wname}", "msg": f"expected {exp.hex()} got {out.brief()} :: {src2!r}"})
+            outcomes.add("WRONG-IN-" + wname)
+        else:
+            outcomes.add("ok-" + wname)
+    return {"evals": evals, "nt_count": evals, "outcome": sorted(outcomes), "violations": viol[:10]}
+
+
 def sweep_ranges(tier):
     if tier == "thorough":
         return [(-0x20000, 0x20000), (0xFF0000, 0x1010000), (-0x1010000, -0xFF0000), (0xFFFF0000, 0x100010000)]
@@ -331,6 +383,8 @@ def run_sweep(d, lo, hi):
 def run_case(case):
     if case[0] == "sweep":
         return run_sweep(case[1], case[2], case[3])
+    if case[0] == "incbin-contexts":
+        return run_incbin_contexts()
     if case[0] == "contexts":
         return run_contexts(case[1])
     if case[0] == "ascii-edge":
